@@ -69,6 +69,11 @@ def _merge_stubs_members(obj: Module | Class, stubs: Module | Class) -> None:
             if stub_member.is_alias:
                 continue
             obj_member = obj.get_member(member_name)
+            # The same stubs can be merged twice (top-level stubs are merged when they are added
+            # to the modules collection, then again once the package is loaded): a stub-only object
+            # moved by the first merge must not be merged into itself (it would lose its overloads).
+            if obj_member is stub_member:
+                continue
             with suppress(AliasResolutionError, CyclicAliasError):
                 # An object's canonical location can differ from its equivalent stub location.
                 # Devs usually declare stubs at the public location of the corresponding object,
